@@ -23,6 +23,9 @@ def run(ctx):
     ctx.prove('props/C08.v')
     L.lockstep(ctx, [L.mon_c08])
     L.nested_sweep(ctx, ('panic', 'hang'))
+    if ctx.tier == 'thorough':
+        ctx.harness(['p_nested2'])
+        L.nested2_sweep(ctx, ('panic', 'hang'))
     L.ra_search(ctx, 1500 if ctx.tier == 'quick' else 60000)
     ctx.coverage['rule_nested'] = ('instruction-level sweep (trap flag): send/recv interrupted after every instruction by a handler running '
                                    'send/recv to completion, fill 0-5; outcomes (returns, drained values, drop counts, panic, hang) against the '
